@@ -330,9 +330,9 @@ def step (c : Cfg) (r : Req) (s : St) : Ev → St × List Out
 def run (c : Cfg) (r : Req) : St → List Ev → St × List Out
   | s, [] => (s, [])
   | s, e :: es =>
-    let (s1, o1) := step c r s e
-    let (s2, o2) := run c r s1 es
-    (s2, o1 ++ o2)
+    let p := step c r s e
+    let q := run c r p.1 es
+    (q.1, p.2 ++ q.2)
 
 def isDispatch : Out → Bool
   | .dispatch _ _ => true
